@@ -241,8 +241,61 @@ pub fn visit_cf(args: &[String]) -> Result<Value> {
             Err(_) => { if failures.len() < 10 { failures.push(json!({"panic": true, "input_wasm_hex": crate::ops::hex(wasm)})); } }
         }
     }
+    // sequences with a multi-value type: both drivers report the sequence's type id once per sequence (empty sequences included)
+    for (name, text) in MV_SHAPES {
+        checked += 1;
+        let r = std::panic::catch_unwind(|| -> Result<Option<Value>> {
+            let wasm = wat::parse_str(text)?;
+            let mut config = walrus::ModuleConfig::new();
+            config.generate_producers_section(false);
+            let mut m = config.parse(&wasm)?;
+            let fid = m.exports.get_func("f")?;
+            let func = m.funcs.get(fid).kind.unwrap_local();
+            // independent count: plain recursion over the tree through the public accessors
+            fn mv_seqs(f: &walrus::LocalFunction, id: InstrSeqId) -> usize {
+                let seq = f.block(id);
+                let mut n = if let InstrSeqType::MultiValue(_) = seq.ty { 1 } else { 0 };
+                for (i, _) in seq.instrs.iter() { match i {
+                    Instr::Block(b) => n += mv_seqs(f, b.seq), Instr::Loop(l) => n += mv_seqs(f, l.seq),
+                    Instr::IfElse(ie) => { n += mv_seqs(f, ie.consequent); n += mv_seqs(f, ie.alternative); } _ => {} } }
+                n
+            }
+            let want = mv_seqs(func, func.entry_block());
+            let mut r = Rec::default();
+            dfs_in_order(&mut r, func, func.entry_block());
+            let got = r.ev.get("type").cloned().unwrap_or(0);
+            if got != want { return Ok(Some(json!({"what": format!("dfs_in_order reported {got} sequence type ids, the tree has {want} multi-value sequences"), "module": name}))); }
+            let func = m.funcs.get_mut(fid).kind.unwrap_local_mut();
+            let entry = func.entry_block();
+            let mut rm = RecMut::default();
+            dfs_pre_order_mut(&mut rm, func, entry);
+            let got = rm.ev.get("type").cloned().unwrap_or(0);
+            if got != want { return Ok(Some(json!({"what": format!("dfs_pre_order_mut reported {got} sequence type ids, the tree has {want} multi-value sequences"), "module": name}))); }
+            // and a gc + emit of the module still works (the type of an empty multi-value block is only named by that block)
+            walrus::passes::gc::run(&mut m);
+            let out = m.emit_wasm();
+            let mut f = wasmparser::WasmFeatures::default(); f.insert(wasmparser::WasmFeatures::MULTI_VALUE);
+            wasmparser::Validator::new_with_features(f).validate_all(&out).map_err(|e| anyhow::anyhow!("after gc the output does not validate: {e}"))?;
+            Ok(None)
+        });
+        match r {
+            Ok(Ok(None)) => {}
+            Ok(Ok(Some(v))) => failures.push(json!({"what": v})),
+            Ok(Err(e)) => failures.push(json!({"error": format!("{e:#}"), "module": name})),
+            Err(_) => failures.push(json!({"panic": true, "module": name})),
+        }
+    }
     Ok(json!({"violated": !failures.is_empty(), "programs_checked": checked, "budget": budget, "max_depth": depth, "failures": failures}))
 }
+const MV_SHAPES: &[(&str, &str)] = &[
+    ("empty-mv-block", r#"(module (func (export "f") (param i32 i32) (result i32 i32) (local.get 0) (local.get 1) (block (param i32 i32) (result i32 i32))))"#),
+    ("empty-mv-loop", r#"(module (func (export "f") (param i64) (result i64 i64) (local.get 0) (local.get 0) (loop (param i64 i64) (result i64 i64))))"#),
+    ("empty-mv-block-in-loop-in-if", r#"(module (func (export "f") (param i32) (result i32 i32) (local.get 0) (local.get 0)
+        (if (param i32 i32) (result i32 i32) (local.get 0) (then (loop (param i32 i32) (result i32 i32) (block (param i32 i32) (result i32 i32)))) (else))))"#),
+    ("mv-blocks-with-bodies", r#"(module (func (export "f") (result i32 i32) (block (result i32 i32) (i32.const 1) (i32.const 2)) (block (param i32 i32) (result i32 i32) (nop))
+        (loop (param i32 i32) (result i32 i32) (block (param i32 i32) (result i32 i32) (drop) (i32.const 3)))))"#),
+    ("single-value-only", r#"(module (func (export "f") (result i32) (block (result i32) (loop (result i32) (i32.const 1)))))"#),
+];
 
 /// `visit-deep DEPTH`: nesting depth DEPTH through blocks, loops and both arms of if/else, both traversals, on a
 /// thread with a 2 MiB stack: call-stack use must not grow with nesting depth
